@@ -94,7 +94,7 @@ def _wrap(integ, terms):
     return tuple(terms)
 
 
-CONTINUATIONS = ["direct", "enroll-each", "stream-frames-each"]
+CONTINUATIONS = ["direct", "enroll-each", "stream-frames-each", "stream-frames-all"]
 
 
 def drive(integ: str, cfg: dict, stmts: list, fault_at: int, fault, ns_after=None, via: str = "direct"):
@@ -102,7 +102,8 @@ def drive(integ: str, cfg: dict, stmts: list, fault_at: int, fault, ns_after=Non
 
     via: how the caller goes on AFTER the rejected statement - 'direct' keeps calling stream.triple/quad/graph;
     'enroll-each' is a batch loop that calls stream.enroll() before every statement (idempotent on a healthy stream);
-    'stream-frames-each' hands each later statement to the integration's stream_frames(stream, [statement]) (TRIPLES/QUADS).
+    'stream-frames-each' hands each later statement to the integration's stream_frames(stream, [statement]) (TRIPLES/QUADS);
+    'stream-frames-all' drives EVERY statement, the rejected one included, through stream_frames(stream, [statement]).
 
     ns_after = (prefix, iri): right after the faulty statement the caller also declares a namespace on the same stream
     (what re-entering stream_frames with declarations enabled does)."""
@@ -134,7 +135,7 @@ def drive(integ: str, cfg: dict, stmts: list, fault_at: int, fault, ns_after=Non
         try:
             if i > fault_at and via == "enroll-each":
                 stream.enroll()
-            if i > fault_at and via == "stream-frames-each" and phys != 3:
+            if (i > fault_at and via == "stream-frames-each" and phys != 3) or (via == "stream-frames-all" and phys != 3):
                 if integ == "generic":
                     from pyjelly.integrations.generic.serialize import stream_frames as _sf
                 else:
@@ -314,8 +315,8 @@ def run_case(ctx, rng):
                 nxt[0] = ("iri", FRESH + "a")
                 seq = seq[:pos + 1] + [tuple(nxt)] + seq[pos + 2:]
             cfg_run = dict(cfg, ns=True) if ns_after else cfg
-            via = rng.choice(["direct", "direct", "enroll-each", "stream-frames-each"])
-            if via == "stream-frames-each" and (phys == 3 or ns_after):
+            via = rng.choice(["direct", "direct", "enroll-each", "stream-frames-each", "stream-frames-all"])
+            if via.startswith("stream-frames") and (phys == 3 or ns_after):
                 via = "enroll-each"
             seq_run, seq = seq, seq_all
             try:
